@@ -676,7 +676,11 @@ def oracles(lines):
                 viol.append(("C03", "sink %d received id=%d after id=%d although actor %d issued it earlier" % (s, i, last[a], a)))
             last[a] = i
     # completeness after the final drain: every accepted statement on every accepting sink of its logger
-    drained = True
+    # premise: the script really ends with a drain — the exit drain `X` as its last operation, or the long final drain of
+    # finish() (ten or more rounds of "time passes, poll"); a script cut short (also by the replay minimiser) says nothing
+    _ops = rec["ops"]
+    drained = bool(_ops) and (_ops[-1][0][0] == "X" or
+                              sum(1 for (w2, _, _) in _ops[-260:] if w2[0] == "K" and len(w2) > 1 and w2[1].isdigit() and int(w2[1]) >= 2000000) >= 10)
     if not has_faults and not dyn_cfg_changes and not removed_loggers and drained:
         for i, st in stmts.items():
             if st["ret"] is not True or st["lvl"] == 9:
@@ -687,7 +691,7 @@ def oracles(lines):
                     viol.append(("C08" if dropping else "C03", "accepted statement id=%d (actor %d) never reached sink %d" % (i, st["actor"], s)))
                     if st["actor"] in exited:
                         viol.append(("C20", "statement id=%d of exited thread %d was accepted but never delivered to sink %d (its context was reclaimed or skipped with the statement pending)" % (i, st["actor"], s)))
-    if dropping and not backtrace_used and xs_seen and cfg.get("variant", 0) == 1 and not unknown_outcomes[0]:
+    if dropping and xs_seen and cfg.get("variant", 0) == 1 and not unknown_outcomes[0]:
         if dropped_reported != dropped_log_calls:
             viol.append(("C08", "dropped log calls: %d, reported through the notifier: %d" % (dropped_log_calls, dropped_reported)))
     # ---- C05: global order under the premise ---------------------------------------------------------------------
